@@ -168,9 +168,16 @@ def rand_leaf(rng, cmp=False):
             # bounds that contain the letters of the range keyword: [ato TO b], [toa TO cto], [to TO to]
             lo = rng.choice([[7, 8], [7, 8] + lo, lo + [7, 8], lo + [7, 8], lo[:1] + [7, 8] + lo[1:]])
             hi = rng.choice([[7, 8], [7, 8] + hi, hi + [7, 8], hi])
+        if rng.random() < 0.25:
+            # one word as both bounds (a word some document has): [a TO a] is that word, {a TO a] and [a TO a} nothing
+            lo = hi = [rng.randrange(1, 4)]
+            return {"op": "range", "f": f, "lo": lo, "hi": hi, "haslo": True, "hashi": True,
+                    "loexcl": rng.random() < 0.5, "hiexcl": rng.random() < 0.5}
         return {"op": "range", "f": f, "lo": lo, "hi": hi, "haslo": rng.random() < 0.8, "hashi": rng.random() < 0.8,
                 "loexcl": rng.random() < 0.4, "hiexcl": rng.random() < 0.4}
     lo, hi = sorted([rng.randrange(-4, 9), rng.randrange(-4, 9)])
+    if rng.random() < 0.2:
+        hi = lo
     return {"op": "nrange", "f": "num", "lo": lo, "hi": hi, "haslo": rng.random() < 0.8, "hashi": rng.random() < 0.8,
             "loexcl": rng.random() < 0.4, "hiexcl": rng.random() < 0.4}
 
